@@ -7,6 +7,7 @@ package c18
 import (
 	"bytes"
 	"fmt"
+	"io"
 	"sort"
 
 	"github.com/Eyevinn/mp4ff/aac"
@@ -148,6 +149,63 @@ func freqClass(f int) string {
 }
 
 // checkASC runs one AudioSpecificConfig round trip.
+// sources: the decoders take an io.Reader; besides a bytes.Reader they must
+// cope with every reader the io.Reader contract allows.
+type oneByteReader struct{ r io.Reader }
+
+func (o oneByteReader) Read(p []byte) (int, error) {
+	if len(p) == 0 {
+		return 0, nil
+	}
+	return o.r.Read(p[:1])
+}
+
+// dataErrReader returns the final bytes together with io.EOF.
+type dataErrReader struct {
+	b   []byte
+	pos int
+}
+
+func (d *dataErrReader) Read(p []byte) (int, error) {
+	n := copy(p, d.b[d.pos:])
+	d.pos += n
+	if d.pos >= len(d.b) {
+		return n, io.EOF
+	}
+	return n, nil
+}
+
+// hesitantReader returns (0, nil) on every other call and at most 2 bytes otherwise.
+type hesitantReader struct {
+	r   io.Reader
+	odd bool
+}
+
+func (h *hesitantReader) Read(p []byte) (int, error) {
+	h.odd = !h.odd
+	if h.odd || len(p) == 0 {
+		return 0, nil
+	}
+	if len(p) > 2 {
+		p = p[:2]
+	}
+	return h.r.Read(p)
+}
+
+var sourceKinds = []string{"bytes.Reader", "one-byte", "data+EOF", "hesitant"}
+
+func source(kind string, b []byte) io.Reader {
+	switch kind {
+	case "one-byte":
+		return oneByteReader{bytes.NewReader(b)}
+	case "data+EOF":
+		return &dataErrReader{b: b}
+	case "hesitant":
+		return &hesitantReader{r: bytes.NewReader(b)}
+	}
+	return bytes.NewReader(b)
+}
+
 func checkASC(c *runner.Ctx, obj, ch, f, ext int) bool {
 	x := wantASC(obj, ch, f, ext)
 	cls := fmt.Sprintf("obj=%d,sampling=%s,ext=%s", obj, freqClass(f), freqClass(ext))
@@ -163,14 +221,21 @@ func checkASC(c *runner.Ctx, obj, ch, f, ext int) bool {
 		c.Violation("asc/bytes-vs-reference/"+cls, fmt.Sprintf("Encode(%+v) = %x, reference layout %x", x, buf.Bytes(), ref), det)
 		return false
 	}
-	got, err := aac.DecodeAudioSpecificConfig(bytes.NewReader(buf.Bytes()))
-	if err != nil || got == nil {
-		c.Violation("asc/decode-error/"+cls, fmt.Sprintf("Decode(Encode(%+v)) error: %v", x, err), det)
-		return false
-	}
-	if *got != x {
-		c.Violation("asc/roundtrip/"+cls, fmt.Sprintf("Decode(Encode(x)) = %+v, x = %+v", *got, x), det)
-		return false
+	for _, sk := range sourceKinds {
+		got, err := aac.DecodeAudioSpecificConfig(source(sk, buf.Bytes()))
+		key := ""
+		if sk != "bytes.Reader" {
+			key = "/from-" + sk + "-reader"
+		}
+		if err != nil || got == nil {
+			c.Violation("asc/decode-error"+key+"/"+cls, fmt.Sprintf("Decode(Encode(%+v)) from a %s source: error %v", x, sk, err), det)
+			return false
+		}
+		if *got != x {
+			c.Violation("asc/roundtrip"+key+"/"+cls, fmt.Sprintf("Decode(Encode(x)) from a %s source = %+v, x = %+v", sk, *got, x), det)
+			return false
+		}
+		c.Count("asc_decodes_from:"+sk, 1)
 	}
 	return true
 }
@@ -403,6 +468,14 @@ func checkADTS(c *runner.Ctx, obj, fi, ch, plen, full int, junk []byte, junkKind
 		c.Inconclusive("adts-junk-generator-created-sync")
 		return false
 	}
+	for _, sk := range sourceKinds[1:] {
+		g, o, e := aac.DecodeADTSHeader(source(sk, stream))
+		if e != nil || g == nil || *g != h || o != want {
+			c.Violation("adts/from-"+sk+"-reader/"+cls, fmt.Sprintf("DecodeADTSHeader from a %s source: %+v at offset %d (err %v); encoded %+v at offset %d", sk, g, o, e, h, want), det)
+			return false
+		}
+		c.Count("adts_decodes_from:"+sk, 1)
+	}
 	got, off, err := aac.DecodeADTSHeader(bytes.NewReader(stream))
 	if err != nil || got == nil {
 		c.Violation("adts/decode-error/"+cls, fmt.Sprintf("DecodeADTSHeader after %d junk bytes (%s): %v", len(junk), junkKind, err), det)
@@ -444,6 +517,13 @@ func checkADTS(c *runner.Ctx, obj, fi, ch, plen, full int, junk []byte, junkKind
 		}
 		if *g2 != wantH || off2 != want {
 			c.Violation("adts-crc/decoded-header/"+cls, fmt.Sprintf("CRC form decoded as %+v at offset %d; the header says %+v at offset %d (frame_length = 9 + payload)", *g2, off2, wantH, want), det)
+			return false
+		}
+		// the decoded header encoded again (Encode writes the 7-byte form) must still announce the same payload
+		re := g2.Encode()
+		g3, _, err3 := aac.DecodeADTSHeader(bytes.NewReader(append(append([]byte{}, re...), 0x21, 0x00)))
+		if err3 != nil || g3 == nil || g3.PayloadLength != h.PayloadLength || g3.ObjectType != h.ObjectType || g3.SamplingFrequencyIndex != h.SamplingFrequencyIndex || g3.ChannelConfig != h.ChannelConfig {
+			c.Violation("adts-crc/re-encode/"+cls, fmt.Sprintf("header decoded from the CRC form %+v, encoded again (%x) and decoded: %+v (err %v); payload length must stay %d", *g2, re, g3, err3, h.PayloadLength), det)
 			return false
 		}
 	}
